@@ -359,6 +359,18 @@ func c16Check(r *vlib.Run, tp rtopo, assign map[string]int) {
 	}
 	for i, d := range res.docs {
 		if len(d.Data) == 0 {
+			// empty only if its store could not deliver it: some fetch call to a replica of that shard deviated
+			sh := int(want[i].id.MID) % 10
+			excused := false
+			for k, v := range assign {
+				if v != 0 && strings.HasPrefix(k, fmt.Sprintf("fetch/%s-s%d-", tier, sh)) {
+					excused = true
+				}
+			}
+			if !excused {
+				r.Violation("a document is empty although its store delivered it "+tp.String(), cse, fmt.Sprintf("%s\nposition %d id %v (shard %d) is empty; no fetch call of that shard failed", detail, i, want[i].id, sh))
+				return
+			}
 			continue
 		}
 		if string(d.Data) != want[i].body || d.ID != want[i].id {
@@ -472,7 +484,7 @@ func TestVerifC16(t *testing.T) {
 	r.Sample(c16Case{rtopo{2, 2, 1, 1, 0, 3, false}, map[string]int{"search/hot-s0-r0/#1": 1, "fetch/hot-s1-r0/#1": 4}})
 	ev := r.Get("evaluations")
 	r.Finish(t, "fault_enumeration",
-		fmt.Sprintf("topologies hot {1..3}x{1..3} x long-term {none,1x1,1x2,2x1,2x2} x (offset,size) in {(0,1),(0,3),(1,3),(1,1)}, order alternating; each fake shard holds a 3-document corpus and answers Search correctly; environment events: every Search call (ok / error / wants-old-data as status code and as error message / too-many-fractions), every Fetch call (ok / open error / stream breaks after 0 or 1 documents / first document missing / an extra unknown document first / first two documents swapped), every replica shuffle; all assignments for <=2 hot replicas and <=1 long-term replica (offset 0, size 3), at most %d deviations otherwise. Oracle: plain error, or IDs = page of the merged order over exactly the shards with an answering replica of the consulted tier, partial flag iff some shard had none, long-term tier consulted iff a hot store wants old data, stream has exactly len(IDs) entries and the i-th is the i-th ID's document or empty; no panic", bigBound),
+		fmt.Sprintf("topologies hot {1..3}x{1..3} x long-term {none,1x1,1x2,2x1,2x2} x (offset,size) in {(0,1),(0,3),(1,3),(1,1)}, order alternating; each fake shard holds a 3-document corpus and answers Search correctly; environment events: every Search call (ok / error / wants-old-data as status code and as error message / too-many-fractions), every Fetch call (ok / open error / stream breaks after 0 or 1 documents / first document missing / an extra unknown document first / first two documents swapped), every replica shuffle; all assignments for <=2 hot replicas and <=1 long-term replica (offset 0, size 3), at most %d deviations otherwise. Oracle: plain error, or IDs = page of the merged order over exactly the shards with an answering replica of the consulted tier, partial flag iff some shard had none, long-term tier consulted iff a hot store wants old data, stream has exactly len(IDs) entries and the i-th is the i-th ID's document, or empty only if a fetch call to a replica of its shard failed; no panic", bigBound),
 		map[string]any{
 			"states":                        r.DistinctCount("outcomes"),
 			"transitions":                   ev,
